@@ -35,6 +35,14 @@ def check_outcome_error(prop, sc, out):
 def check_spies(sc, m, out, expected):
     """Exactly-once, in time order, from the delivery log of the spies."""
     viol = []
+    seq = [t for (t, _c) in m['delivery']]
+    if any(b < a for a, b in zip(seq[:-1], seq[1:])):
+        k = next(i for i, (a, b) in enumerate(zip(seq[:-1], seq[1:])) if b < a)
+        viol.append(V('sample-exactly-once',
+                      f"samples are not used in time order across sensors: "
+                      f"{m['delivery'][k][1]} sample {m['delivery'][k][0]!r} was used before "
+                      f"{m['delivery'][k + 1][1]} sample {m['delivery'][k + 1][0]!r}",
+                      'sample-exactly-once/cross-sensor-order'))
     for s, obj, exp in zip(sc['sensors'], m['measurements'], expected):
         used = [t for (t, shp) in obj.spy_log if shp is not None]
         if not same_bits(used, exp):
@@ -129,30 +137,44 @@ def check_c10(sc, m, out):
     kn = sc['knobs']
     ts = 0.1 if kn['time_step'] is None else float(kn['time_step'])
     tables = ['trajectory'] + SD_TABLES
-    g = np.asarray(res.trajectory.index, dtype=float)
+    seen = []
     for name in tables:
-        idx = np.asarray(getattr(res, name).index, dtype=float)
-        if not same_bits(idx, g):
-            viol.append(V('grid', f"{name} index differs from trajectory index",
-                          'grid/tables-differ'))
-    if len(g) == 0 or g[0] != times[0]:
-        viol.append(V('grid', f"grid does not start at the first input time "
-                              f"({g[:1]} vs {times[0]!r})", 'grid/start'))
-    if not FW.strictly_increasing(g):
-        k = int(np.nonzero(np.diff(g) <= 0)[0][0])
-        viol.append(V('grid', f"grid not strictly increasing: time {float(g[k])!r} followed "
-                              f"by {float(g[k + 1])!r}", 'grid/not-increasing'))
-    elif not FW.is_subset(g, times):
-        viol.append(V('grid', "grid is not a subset of the input times",
-                      'grid/not-subset'))
-    else:
-        pos = np.searchsorted(times, g)
-        for a, b, ia, ib in zip(g[:-1], g[1:], pos[:-1], pos[1:]):
-            if not (b <= a + ts or ib == ia + 1):
-                viol.append(V('step-length',
-                              f"grid steps from {float(a)!r} to {float(b)!r} (> time_step {ts!r} and "
-                              f"{ib - ia} rows ahead)", 'step-length'))
-                break
+        # every table on its own: a strictly increasing subset of the input times that
+        # starts at the first one and never steps too far (tables normally share one index;
+        # identical indices are checked once)
+        g = np.asarray(getattr(res, name).index, dtype=float)
+        if any(same_bits(g, h) for h in seen):
+            continue
+        seen.append(g)
+        if len(g) == 0 or g[0] != times[0]:
+            viol.append(V('grid', f"{name}: grid does not start at the first input time "
+                                  f"({g[:1].tolist()} vs {float(times[0])!r})", 'grid/start'))
+        if not FW.strictly_increasing(g):
+            k = int(np.nonzero(np.diff(g) <= 0)[0][0])
+            viol.append(V('grid', f"{name}: grid not strictly increasing: time "
+                                  f"{float(g[k])!r} followed by {float(g[k + 1])!r}",
+                          'grid/not-increasing'))
+        elif not FW.is_subset(g, times):
+            viol.append(V('grid', f"{name}: grid is not a subset of the input times",
+                          'grid/not-subset'))
+        else:
+            pos = np.searchsorted(times, g)
+            for a, b, ia, ib in zip(g[:-1], g[1:], pos[:-1], pos[1:]):
+                if not (b <= a + ts or ib == ia + 1):
+                    viol.append(V('step-length',
+                                  f"{name}: grid steps from {float(a)!r} to {float(b)!r} "
+                                  f"(> time_step {ts!r} and {ib - ia} rows ahead)",
+                                  'step-length'))
+                    break
+            else:
+                # the last step (to the end of the data) obeys the same bound: the tables
+                # may not silently stop early
+                if len(g) and not (times[-1] <= g[-1] + ts or pos[-1] >= len(times) - 2):
+                    viol.append(V('step-length',
+                                  f"{name}: grid stops at {float(g[-1])!r}, "
+                                  f"{len(times) - 1 - int(pos[-1])} rows and more than "
+                                  f"time_step {ts!r} before the last input time "
+                                  f"{float(times[-1])!r}", 'step-length/end'))
     for name in tables:
         tab = getattr(res, name)
         if tab.size and not FW.finite_table(tab):
@@ -186,8 +208,22 @@ def check_c10(sc, m, out):
 def check_c13_filter(sc, m, out):
     """2-D invariants on a filter run (with_altitude False)."""
     viol = []
+    if sc['knobs']['measurements_arg'] == 'list':
+        # shapes of every model the filter was handed (also when it then failed)
+        for s, obj in zip(sc['sensors'], m['measurements']):
+            want_rows = 3 if s['cls'] == 'BodyVelocity' else 2
+            for (t, shp) in obj.spy_log:
+                if shp is None:
+                    continue
+                zs, hs, rs = shp
+                if zs != (want_rows,) or hs != (want_rows, 7) or rs != (want_rows,
+                                                                        want_rows):
+                    viol.append(V('meas-rows',
+                                  f"{s['cls']} at t={t!r}: z{zs} H{hs} R{rs}, expected "
+                                  f"{want_rows} rows and 7 columns", 'filter/meas-rows'))
+                    break
     if out.error_class is not None:
-        return viol          # 'did not return' belongs to C09/C10
+        return viol          # 'did not return' itself belongs to C09/C10
     res = out.result
     if sc['filter'] == 'feedback':
         tr = res.trajectory
@@ -214,16 +250,6 @@ def check_c13_filter(sc, m, out):
     if sc['knobs']['measurements_arg'] == 'list':
         for s, obj in zip(sc['sensors'], m['measurements']):
             want_rows = 3 if s['cls'] == 'BodyVelocity' else 2
-            for (t, shp) in obj.spy_log:
-                if shp is None:
-                    continue
-                zs, hs, rs = shp
-                if zs != (want_rows,) or hs != (want_rows, 7) or rs != (want_rows,
-                                                                        want_rows):
-                    viol.append(V('meas-rows',
-                                  f"{s['cls']} at t={t!r}: z{zs} H{hs} R{rs}, expected "
-                                  f"{want_rows} rows and 7 columns", 'filter/meas-rows'))
-                    break
             inn = res.innovations.get(s['cls'])
             if isinstance(inn, pd.DataFrame) and len(inn) and inn.shape[1] != want_rows:
                 viol.append(V('meas-rows', f"innovations[{s['cls']}] has "
